@@ -64,6 +64,11 @@ pub struct Hist {
 	pub next_key: u32,
 	pub real_pow: bool,
 	pub prng: Prng,
+	/// deliver about half of the blocks that have inputs with "features and commitment" inputs (the
+	/// encoding a node uses for blocks it mines from pool transactions and receives from v2 peers; its
+	/// canonical order differs from the commit-only order the database stores). Chosen by a bit of the
+	/// block hash, so the PRNG stream — and every world — is the same with and without it.
+	pub v2_inputs: bool,
 }
 
 fn ckey(c: &Coin) -> Vec<u8> {
@@ -86,7 +91,27 @@ impl Hist {
 			next_key: 1,
 			real_pow,
 			prng: Prng::new(seed ^ 0x4849_5354),
+			v2_inputs: false,
 		}
+	}
+
+	/// Re-encode the block's inputs as (features, commitment) pairs in their own canonical order.
+	pub fn to_v2_inputs(&self, b: &mut Block) -> bool {
+		use grin_core::core::{Input, Inputs, OutputFeatures};
+		let ins = crate::ledger::inputs_vec(&b.inputs());
+		if ins.is_empty() {
+			return false;
+		}
+		let mut v = vec![];
+		for (c, _) in ins {
+			match self.coins.get(&c.0.to_vec()) {
+				Some(coin) => v.push(Input::new(if coin.coinbase { OutputFeatures::Coinbase } else { OutputFeatures::Plain }, c)),
+				None => return false,
+			}
+		}
+		v.sort_unstable();
+		b.body.inputs = Inputs::FeaturesAndCommit(v);
+		true
 	}
 
 	pub fn opts(&self) -> grin_chain::types::Options {
@@ -243,6 +268,8 @@ impl Hist {
 
 	/// Build (and register) a block on `parent` from `txs`; judged by the reference.
 	pub fn add_block(&mut self, parent: &Hash, txs: &[Transaction], class: &str, tags: Vec<String>) -> GenBlock {
+		let mut tags = tags;
+		let mut tags_v2 = false;
 		let mode = self.mode(parent);
 		let k = self.fresh_key();
 		let fees: u64 = txs.iter().map(|t| t.fee()).sum();
@@ -252,8 +279,16 @@ impl Hist {
 			.ledger
 			.make_block(&self.world.clone(), &mut p, parent, txs, &k, mode, ts)
 			.expect("make_block");
+		let mut b = b;
+		if self.v2_inputs && b.hash().as_bytes()[7] & 1 == 1 && self.to_v2_inputs(&mut b) {
+			// the ledger keeps the block it was given at make_block time; only the encoding of the inputs differs
+			tags_v2 = true;
+		}
 		let cb = self.world.coin(consensus::reward(fees), &k, true);
 		self.register(&[cb]);
+		if tags_v2 {
+			tags.push("inputs_features_and_commit".to_string());
+		}
 		let pst = self.ledger.state_at(parent);
 		let verdict = pst.check_block(&b);
 		let gb = GenBlock {
@@ -364,6 +399,7 @@ impl Hist {
 /// Generate a random fork tree history.
 pub fn gen_history(seed: u64, cfg: &TreeCfg) -> Hist {
 	let mut h = Hist::new(seed, cfg.real_pow);
+	h.v2_inputs = true;
 	let g = h.genesis.hash();
 	let mut trunk = vec![g];
 	for _ in 0..cfg.trunk {
@@ -472,13 +508,20 @@ fn unhex(s: &str) -> Vec<u8> {
 }
 
 pub fn block_to_hex(b: &Block) -> String {
-	hex(&ser::ser_vec(b, ProtocolVersion(3)).expect("ser block"))
+	// commit-only inputs exist only in the v3 encoding, (features, commitment) inputs only in v1 / v2
+	match b.inputs() {
+		grin_core::core::Inputs::FeaturesAndCommit(ref v) if !v.is_empty() => format!("v2:{}", hex(&ser::ser_vec(b, ProtocolVersion(2)).expect("ser block"))),
+		_ => hex(&ser::ser_vec(b, ProtocolVersion(3)).expect("ser block")),
+	}
 }
 
 pub fn block_from_hex(s: &str) -> Block {
-	let bytes = unhex(s);
-	ser::deserialize(&mut &bytes[..], ProtocolVersion(3), DeserializationMode::default())
-		.expect("deser block")
+	let (ver, body) = match s.strip_prefix("v2:") {
+		Some(r) => (2, r),
+		None => (3, s),
+	};
+	let bytes = unhex(body);
+	ser::deserialize(&mut &bytes[..], ProtocolVersion(ver), DeserializationMode::default()).expect("deser block")
 }
 
 pub fn hist_to_json(h: &Hist) -> Value {
@@ -488,6 +531,7 @@ pub fn hist_to_json(h: &Hist) -> Value {
 		"seed": h.world.seed,
 		"real_pow": h.real_pow,
 		"next_key": h.next_key,
+		"v2_inputs": h.v2_inputs,
 		"genesis": block_to_hex(&h.genesis),
 		"blocks": h.blocks.iter().map(|b| json!({
 			"hex": block_to_hex(&b.block), "class": b.class, "tags": b.tags,
@@ -540,6 +584,7 @@ pub fn hist_from_json(v: &Value) -> Hist {
 		next_key: v["next_key"].as_u64().unwrap_or(1) as u32,
 		real_pow: v["real_pow"].as_bool().unwrap_or(false),
 		prng: Prng::new(seed ^ 0x4c4f_4144),
+		v2_inputs: v["v2_inputs"].as_bool().unwrap_or(false),
 	}
 }
 
